@@ -178,9 +178,9 @@ def build(job):
     if job.get("multi"):
         return Explorer(w, workload, [MultiSignalMonitor(job["multi"])], job.get("budget"),
                         signal_spec=multi_spec(job["multi"]), max_states=job.get("max_states", 200000),
-                        time_cap=job.get("time_cap", 1200))
+                        time_cap=job.get("time_cap", 600))
     return Explorer(w, workload, [SignalMonitor(job["persistent"])], job.get("budget"), signal_spec=spec(job["persistent"]),
-                    max_states=job.get("max_states", 200000), time_cap=job.get("time_cap", 1200))
+                    max_states=job.get("max_states", 200000), time_cap=job.get("time_cap", 600))
 
 
 def run_e2(job):
